@@ -89,6 +89,33 @@ def gen_cases(ctx, rng):
                         "horizon": 36000 * 1000 * L.MS, "seed": 2000 + i}, 300)
         cases.append(c)
         stats["receiver_slower_than_5s"] = stats.get("receiver_slower_than_5s", 0) + 1
+    # the toxics only delay, throttle or re-chunk - also while they are being switched off and on (toxicity 0 / 1), updated or joined by
+    # another toxic with data inside them: the stream stays exact and complete
+    for i in range(16 if ctx.tier == "quick" else 400):
+        holder = rng.choice([L.tx("latency", name="t0", latency=rng.choice([300, 1500]), jitter=0), L.tx("bandwidth", name="t0", rate=rng.choice([1, 3])),
+                             L.tx("slicer", name="t0", average_size=50, size_variation=0, delay=20000), L.tx("slow_close", name="t0", delay=400)])
+        chain = [holder] + ([L.tx("noop", name="t1")] if rng.chance(1, 2) else [])
+        src, t = [], 1 * L.MS
+        period = rng.choice([10, 40, 90]) * L.MS + rng.range(0, 999)
+        for _ in range(rng.range(5, 12)):
+            src.append({"at": t, "n": rng.range(1, 1500)})
+            t += period
+        t1 = src[2]["at"] + rng.range(1, 30) * L.MS + 333
+        ops = [{"at": t1, "op": "update", "name": "t0", "body": json.dumps({"toxicity": 0})}]
+        how = rng.choice(["remove", "reset", "back_on", "nothing", "add_behind"])
+        t2 = t1 + rng.range(50, 400) * L.MS + 111
+        if how == "remove":
+            ops.append({"at": t2, "op": "remove", "name": "t0"})
+        elif how == "reset":
+            ops.append({"at": t2, "op": "reset"})
+        elif how == "back_on":
+            ops.append({"at": t2, "op": "update", "name": "t0", "body": json.dumps({"toxicity": 1})})
+        elif how == "add_behind":
+            ops.append({"at": t2, "op": "add", "toxic": L.tx("noop", name="z")})
+        src.append({"at": max(t, t2) + rng.range(2000, 4000) * L.MS, "close": True})
+        cases.append({"dir": rng.choice(["upstream", "downstream"]), "chain": chain, "src": src, "ops": ops,
+                      "horizon": 36000 * 1000 * L.MS, "seed": 3000 + i})
+        stats["switched_while_holding"] = stats.get("switched_while_holding", 0) + 1
     return cases, stats
 
 
@@ -116,7 +143,8 @@ def run(ctx):
     return L.run_link_property(ctx, PID, gen_cases, oracle,
                                classify=lambda w: "stream-not-exact" if "bytes" in w else ("crash" if "crash" in w else "no-eof"),
                                rule="random chains (0-5 data-preserving toxics, attributes from a boundary-biased grid, toxicity 0 or 1), "
-                                    "1-6 source writes of 1 B-96 KiB with random pacing in virtual time, then close; non-trivial = chain has "
+                                    "1-6 source writes of 1 B-96 KiB with random pacing in virtual time, then close; plus chains whose holding toxic is switched off "
+                                    "by an update while data is inside it and then removed / reset / switched on again / joined by another toxic; non-trivial = chain has "
                                     "at least one active toxic or a write above 32 KiB; distinct by JSON of the script",
                                nontrivial=lambda c: any(t.get("toxicity", 1) >= 1 and t["type"] != "noop" for t in c["chain"])
                                or any(e.get("n", 0) > 32768 for e in c["src"]),
